@@ -1051,11 +1051,14 @@ pub fn check_par_with(alpha: &[(Vec<u8>, Vec<u8>)], col: &mut Collector) -> (u64
                     StaticData::GenOverWriteC => mk!(SGenOverWriteC),
                     StaticData::DerTupleAC => mk!(SDerTupleAC),
                     StaticData::DerMacWriteC => mk!(SDerMacWriteC),
+                StaticData::TwinW1 => BNode((twin_kinds()[0].leaf)(id, ctx)),
+                StaticData::TwinW2 => BNode((twin_kinds()[1].leaf)(id, ctx)),
+                StaticData::TwinR2 => BNode((twin_kinds()[2].leaf)(id, ctx)),
             }
         }
-        let mask = |v: Vec<u8>| v.iter().fold(0u8, |m, x| m | 1 << x);
+        let mask = |v: Vec<u8>| v.iter().fold(0u64, |m, x| m | 1u64 << x);
         let ids = |v: Vec<u8>| -> Vec<ResourceId> {
-            let mut r: Vec<ResourceId> = v.iter().map(|x| concrete_id(*x)).collect();
+            let mut r: Vec<ResourceId> = v.iter().map(|x| match *x { 62 => twin_kinds()[0].id.clone(), 63 => twin_kinds()[1].id.clone(), c => concrete_id(c) }).collect();
             r.sort();
             r.dedup();
             r
@@ -1089,7 +1092,8 @@ pub fn check_par_with(alpha: &[(Vec<u8>, Vec<u8>)], col: &mut Collector) -> (u64
                 let r = catch_unwind(AssertUnwindSafe(|| {
                     let _ = Par::new(na).with(nb);
                 }));
-                let expect = conflict((mask(a.reads()), mask(a.writes())), (mask(b.reads()), mask(b.writes())));
+                let (ma, mb) = ((mask(a.reads()), mask(a.writes())), (mask(b.reads()), mask(b.writes())));
+                let expect = (ma.1 & (mb.0 | mb.1)) != 0 || (ma.0 & mb.1) != 0;
                 if r.is_err() {
                     panics += 1;
                 }
